@@ -198,14 +198,28 @@ RefShape ==
 
 ImplAgrees == IsCase => imp = ref
 
-(* Structural description of the deviations of the generated function (TLC: Imp = Ref elsewhere).   *)
-(* HTO     : a cdef class in the ancestry of an operand carries total_ordering: the derived         *)
-(*           methods use __eq__/__ne__ directly instead of the == / != operators, the decorator is  *)
-(*           dropped without an equality method or without own comparison methods, and derived      *)
-(*           methods are not inherited by a subclass that defines a comparison method itself.       *)
-HTO == \E k \in Involved(l, r) \cap Cdef : TO(k)
-Hazard == HTO
+(* Structural description of where the generated function leaves the reference (TLC checks that    *)
+(* Imp = Ref everywhere else).  All of it concerns total_ordering:                                  *)
+(* TNoEq : a cdef class carries the decorator, defines comparison methods, but its chain has        *)
+(*         neither __eq__ nor __ne__: the decorator is dropped (compile-time warning only).         *)
+(* TSub  : for the cdef type of an operand the derived methods Python attribute lookup finds        *)
+(*         (functools: set once on the decorated class, inherited by subclasses) differ from the    *)
+(*         ones in its tp_richcompare function, which is re-derived per class from the explicit     *)
+(*         methods only: decorator on a subclass without own methods dropped, derived methods of    *)
+(*         the base lost or taken from another root when the subclass defines a comparison method.  *)
+(* TEff  : the function of an operand's type contains derived methods: they call the chain's        *)
+(*         __eq__ (else __ne__) directly instead of evaluating `self == other` / `self != other`.   *)
+OperandTypes == {l, r} \cap Cdef
+DroppedNoEq(k) == k \in Cdef /\ TO(k) /\ defs[k] # {} /\ Lookup(k, "eq") = "" /\ Lookup(k, "ne") = ""
+PyDer(K) == {<<n, MethodOf(Anc[K], n)[2]>> : n \in {n \in Ord : MethodOf(Anc[K], n)[1] = "derived"}}
+CyDer(K) == LET A == CyOwner(K) IN
+            IF A = "" \/ ~CyTOEffective(A) THEN {} ELSE {<<n, Best(CyOrd(A))>> : n \in Ord \ CyOrd(A)}
+TNoEq == \E k \in Involved(l, r) : DroppedNoEq(k)
+TSub  == \E K \in OperandTypes : Len(Anc[K]) > 1 /\ PyDer(K) # CyDer(K) /\ ~\E k \in Range(Anc[K]) : DroppedNoEq(k)
+TEff  == \E K \in OperandTypes : CyDer(K) # {}
+Hazard == TNoEq \/ TSub \/ TEff
 ImplAgreesOffHazards == (IsCase /\ ~Hazard) => imp = ref
+Tags == (IF TNoEq THEN "dropped_no_eq " ELSE "") \o (IF TSub THEN "subclass_rederived " ELSE "") \o (IF TEff THEN "effective " ELSE "")
 
 Str(log) == [i \in 1..Len(log) |-> log[i].mid \o ":" \o log[i].so]
 Relation == IF l = r THEN (IF same THEN "same_object" ELSE "same_type") ELSE IF IsSub(r, l) THEN "right_is_subclass"
@@ -213,7 +227,7 @@ Relation == IF l = r THEN (IF same THEN "same_object" ELSE "same_type") ELSE IF 
 Publish == (Dump /\ IsCase) =>
   PrintT("@@" \o ToJson([l |-> l, r |-> r, same |-> same, op |-> opk, defs |-> defs, tos |-> tos, beh |-> beh,
                           rel |-> Relation, res |-> ref.res, log |-> Str(ref.log), ires |-> imp.res, ilog |-> Str(imp.log),
-                          hto |-> HTO]))
+                          tags |-> Tags]))
 
 ---------------------------------------------------------------------------
 (* families of method subsets *)
@@ -221,6 +235,9 @@ All64 == SUBSET Ops
 Small == {{}, {"lt"}, {"eq"}, {"lt", "eq"}, {"le", "ne"}, {"gt", "eq", "ne"}, Ops}
 Medium == Small \cup {{"ne"}, {"ge", "eq"}, {"lt", "gt"}, {"eq", "ne"}, {"lt", "le", "gt", "ge"}, {"le", "eq"}}
 Tiny == {{}, Ops}
+Five == {{}, {"lt"}, {"eq"}, {"lt", "eq"}, {"le", "ne"}, Ops}
+PairsCq == {<<"C", "C">>, <<"C", "O">>, <<"O", "C">>}
+PairsSq == {<<"C", "S">>, <<"S", "C">>, <<"S", "S">>}
 PairsC == {<<"C", "C">>, <<"C", "O">>, <<"O", "C">>, <<"C", "D">>, <<"D", "C">>}
 PairsS == {<<"C", "S">>, <<"S", "C">>, <<"S", "S">>, <<"S", "O">>, <<"O", "S">>, <<"S", "D">>, <<"D", "S">>}
 =============================================================================
